@@ -107,6 +107,12 @@ func TestC20(t *testing.T) {
 	// ---- clauses 1-3: MerklePath / AddToMerkle against the reference fold ----
 	search(t, rec, "fold", budget(40000, 3000000), 0, func(rt *rapid.T) {
 		segs := genSegs(rt, "seg", 1, 8)
+		if rapid.IntRange(0, 99).Draw(rt, "deepPath") == 0 { // deeply nested folders: lengths around powers of two and far beyond
+			deep := rapid.SampledFrom([]int{15, 16, 17, 31, 32, 33, 63, 64, 65, 66, 100, 127, 128, 129, 255, 256, 257}).Draw(rt, "depth")
+			for len(segs) < deep {
+				segs = append(segs, fmt.Sprintf("d%d", len(segs)%7))
+			}
+		}
 		if msg := c20Clauses(segs); msg != "" {
 			failf(rt, rec, "C20/fold", segs, "%s", msg)
 		}
@@ -116,7 +122,11 @@ func TestC20(t *testing.T) {
 				nt = true
 			}
 		}
-		rec.Count(fmt.Sprintf("len=%d", len(segs)))
+		if len(segs) > 8 {
+			rec.Count("len>8")
+		} else {
+			rec.Count(fmt.Sprintf("len=%d", len(segs)))
+		}
 		rec.Case(nt, ev.Hash(segs...), func() interface{} { return map[string]interface{}{"segments": trimAll(segs), "address": refPath(segs)} })
 	})
 
